@@ -248,7 +248,7 @@ func diffStates(want, got *mstate) string {
 			return fmt.Sprintf("bucket %d: model expects %d replacements, table has %d", i, len(wr), len(gr))
 		}
 		for j := range wr {
-			if wr[j].id != gr[j].id || wr[j].seq != gr[j].seq {
+			if wr[j].id != gr[j].id || wr[j].seq != gr[j].seq || wr[j].ip != gr[j].ip || wr[j].port != gr[j].port {
 				return fmt.Sprintf("bucket %d replacement %d: model expects %x seq %d, table has %x seq %d", i, j, wr[j].id[:3], wr[j].seq, gr[j].id[:3], gr[j].seq)
 			}
 		}
@@ -649,8 +649,13 @@ func (ts *tableSim) mAdd(m *mstate, post *mstate, n *enode.Node, inbound, forceL
 		ipch, portch := nm.ip != e.ip, nm.port != e.port
 		if ipch && (badIP || openIP) {
 			// may be refused by the IP limits: follow the table
-			if j := idxOf(post.b[bi].entries, n.ID()); j >= 0 && post.b[bi].entries[j].ip == e.ip && post.b[bi].entries[j].seq == e.seq {
-				return false, true
+			// refused unless the table ends up with this record (or a later version of it)
+			if j := idxOf(post.b[bi].entries, n.ID()); j >= 0 {
+				pe := post.b[bi].entries[j]
+				same := pe.seq == nm.seq && pe.ip == nm.ip && pe.port == nm.port
+				if !same && (inbound || pe.seq <= nm.seq) {
+					return false, true
+				}
 			}
 			if badIP {
 				return false, false
@@ -666,8 +671,15 @@ func (ts *tableSim) mAdd(m *mstate, post *mstate, n *enode.Node, inbound, forceL
 		if idxOf(b.repl, n.ID()) >= 0 || badIP {
 			return false, false
 		}
-		if openIP && idxOf(post.b[bi].repl, n.ID()) < 0 {
-			return false, true // refused by IP limits
+		if openIP {
+			// refused by the IP limits unless the table ends up holding exactly this record as a replacement
+			j := idxOf(post.b[bi].repl, n.ID())
+			if j < 0 {
+				return false, true
+			}
+			if pr := post.b[bi].repl[j]; pr.seq != nm.seq || pr.ip != nm.ip || pr.port != nm.port {
+				return false, true
+			}
 		}
 		b.repl = append([]ment{nm}, b.repl...)
 		if len(b.repl) > tMaxRepl {
@@ -678,8 +690,16 @@ func (ts *tableSim) mAdd(m *mstate, post *mstate, n *enode.Node, inbound, forceL
 	if badIP {
 		return false, false
 	}
-	if openIP && idxOf(post.b[bi].entries, n.ID()) < 0 {
-		return false, true
+	if openIP {
+		// refused by the IP limits unless the table ends up holding this record (or a later version of it)
+		j := idxOf(post.b[bi].entries, n.ID())
+		if j < 0 {
+			return false, true
+		}
+		pe := post.b[bi].entries[j]
+		if !(pe.seq == nm.seq && pe.ip == nm.ip && pe.port == nm.port) && pe.seq <= nm.seq {
+			return false, true
+		}
 	}
 	if forceLive {
 		nm.credit, nm.live = 1, true
@@ -724,11 +744,59 @@ func (ts *tableSim) checkC18(op opSpec, pre *mstate, ret opRet) {
 	w := ts.w
 	buckets, _, _, _ := ts.tab.VerifSnapshot()
 	post := fromSnapshot(buckets)
-	m := pre.clone()
-	hooks := append([]hookEv(nil), ts.added...)
-	fail := func(clause, format string, a ...any) {
-		w.violate("C18", clause, "op#%d %s: %s", ts.opIdx, op.K, fmt.Sprintf(format, a...))
+	// revalidation answers can be consumed by the loop before or after the operation itself:
+	// both orders are legal, the transition must match one of them
+	var firstDiff, firstClause string
+	var firstFails []string
+	for order := 0; order < 2; order++ {
+		m := pre.clone()
+		hooks := append([]hookEv(nil), ts.added...)
+		var fails []string
+		failf := func(clause, format string, a ...any) {
+			fails = append(fails, clause+"|"+fmt.Sprintf(format, a...))
+		}
+		if order == 0 {
+			ts.applyOp(m, post, op, ret, &hooks, failf, order == 0)
+			ts.applyPings(m, post, op, &hooks, failf)
+		} else {
+			ts.applyPings(m, post, op, &hooks, failf)
+			ts.applyOp(m, post, op, ret, &hooks, failf, false)
+		}
+		d := diffStates(m, post)
+		if d == "" && len(fails) == 0 {
+			for bi := range pre.b {
+				if len(pre.b[bi].entries) == tBucketSize {
+					w.probe("op_on_full_bucket")
+				}
+			}
+			return
+		}
+		if order == 0 {
+			firstDiff, firstFails = d, fails
+			firstClause = "model-mismatch"
+			for bi := range m.b {
+				for _, e := range m.b[bi].entries {
+					if idxOf(post.b[bi].entries, e.id) < 0 {
+						firstClause = "entry-displaced"
+					}
+				}
+			}
+		}
+		if len(ts.pings) == 0 {
+			break // a single order exists
+		}
 	}
+	for _, f := range firstFails {
+		parts := strings.SplitN(f, "|", 2)
+		w.violate("C18", parts[0], "op#%d %s: %s", ts.opIdx, op.K, parts[1])
+	}
+	if firstDiff != "" {
+		w.violate("C18", firstClause, "op#%d %s: %s", ts.opIdx, op.K, firstDiff)
+	}
+}
+
+func (ts *tableSim) applyOp(m, post *mstate, op opSpec, ret opRet, hooks *[]hookEv, fail func(string, string, ...any), countFails bool) {
+	w := ts.w
 	switch op.K {
 	case "addfound", "addinbound", "addself":
 		exp, amb := ts.mAdd(m, post, ret.node, op.K == "addinbound", op.K == "addfound" && op.n(2) == 1 || op.K == "addself")
@@ -736,23 +804,25 @@ func (ts *tableSim) checkC18(op opSpec, pre *mstate, ret opRet) {
 			fail("add-result", "model expects the add to return %v, the table returned %v", exp, ret.added)
 		}
 	case "delete":
-		if _, why := ts.mDelete(m, ret.node.ID(), &hooks); why != "" {
+		if _, why := ts.mDelete(m, ret.node.ID(), hooks); why != "" {
 			fail("promotion", "%s", why)
 		}
 	case "track":
 		key := ret.node.ID().String() + "|" + ret.node.IPAddr().String()
-		if op.n(1) == 1 {
-			ts.fails[key] = 0
-		} else {
-			ts.fails[key]++
-		}
-		if got := ts.tab.VerifFindFails(ret.node); got != ts.fails[key] {
-			fail("fail-counter", "model counts %d consecutive fruitless queries, the table %d", ts.fails[key], got)
-			ts.fails[key] = got
+		if countFails {
+			if op.n(1) == 1 {
+				ts.fails[key] = 0
+			} else {
+				ts.fails[key]++
+			}
+			if got := ts.tab.VerifFindFails(ret.node); got != ts.fails[key] {
+				fail("fail-counter", "model counts %d consecutive fruitless queries, the table %d", ts.fails[key], got)
+				ts.fails[key] = got
+			}
 		}
 		bi := tBucketOf(ts.self.ID(), ret.node.ID())
 		if ts.fails[key] >= 5 && len(m.b[bi].entries) >= 4 {
-			if rm, why := ts.mDelete(m, ret.node.ID(), &hooks); why != "" {
+			if rm, why := ts.mDelete(m, ret.node.ID(), hooks); why != "" {
 				fail("promotion", "%s", why)
 			} else if rm {
 				w.probe("removed_by_find_failures")
@@ -762,68 +832,52 @@ func (ts *tableSim) checkC18(op opSpec, pre *mstate, ret opRet) {
 			n := ts.nodes[int(op.N[k])%len(ts.nodes)].recs[int(op.N[k+1])%4]
 			ts.mAdd(m, post, n, false, false)
 		}
-	case "wait", "refresh":
-		// revalidation answers in the order the table saw them
-		for _, pe := range ts.pings {
-			bi := tBucketOf(ts.self.ID(), pe.id)
-			i := idxOf(m.b[bi].entries, pe.id)
-			if i < 0 {
-				continue // removed while the request was in flight
-			}
-			e := &m.b[bi].entries[i]
-			if !pe.responded {
-				e.credit /= 3
-				if e.credit == 0 {
-					if _, why := ts.mDelete(m, pe.id, &hooks); why != "" {
-						fail("promotion", "%s", why)
-					}
-					w.probe("removed_by_liveness")
-				}
-				continue
-			}
-			e.credit++
-			e.live = true
-			if pe.newRec != nil && pe.newRec.Seq() > e.seq {
-				nm := mentOf(pe.newRec)
-				changed := nm.ip != e.ip || nm.port != e.port
-				e.seq, e.ip, e.port = nm.seq, nm.ip, nm.port
-				if changed {
-					e.live = false
-					w.probe("endpoint_change_clears_verified")
-				}
-			}
-		}
-		// refresh may re-insert seed nodes from the node database: follow additions of known nodes
-		if op.K == "refresh" {
-			for _, h := range hooks {
-				if i := idxOf(post.b[h.bucket].entries, h.id); i >= 0 && idxOf(m.b[h.bucket].entries, h.id) < 0 && len(m.b[h.bucket].entries) < tBucketSize {
-					pm := post.b[h.bucket].entries[i]
-					m.b[h.bucket].entries = append(m.b[h.bucket].entries, pm)
-				}
-			}
-			hooks = nil
-		}
-	default:
-		return
 	}
-	// every entry that left must have left through one of the model's three causes: since the model
-	// applied exactly those, any other disappearance shows up as a difference
-	if d := diffStates(m, post); d != "" {
-		// classify: an entry vanished that the model keeps = illegitimate displacement
-		clause := "model-mismatch"
-		for bi := range m.b {
-			for _, e := range m.b[bi].entries {
-				if idxOf(post.b[bi].entries, e.id) < 0 {
-					clause = "entry-displaced"
+}
+
+func (ts *tableSim) applyPings(m, post *mstate, op opSpec, hooks *[]hookEv, fail func(string, string, ...any)) {
+	w := ts.w
+	for _, pe := range ts.pings {
+		bi := tBucketOf(ts.self.ID(), pe.id)
+		i := idxOf(m.b[bi].entries, pe.id)
+		if i < 0 {
+			continue // removed while the request was in flight
+		}
+		if pe.gen != ts.gen[pe.id] {
+			w.probe("stale_revalidation_answer_ignored")
+			continue // the answer belongs to an entry that was removed and re-added meanwhile
+		}
+		e := &m.b[bi].entries[i]
+		if !pe.responded {
+			e.credit /= 3
+			if e.credit == 0 {
+				if _, why := ts.mDelete(m, pe.id, hooks); why != "" {
+					fail("promotion", "%s", why)
 				}
+				w.probe("removed_by_liveness")
+			}
+			continue
+		}
+		e.credit++
+		e.live = true
+		if pe.newRec != nil && pe.newRec.Seq() > e.seq {
+			nm := mentOf(pe.newRec)
+			changed := nm.ip != e.ip || nm.port != e.port
+			e.seq, e.ip, e.port = nm.seq, nm.ip, nm.port
+			if changed {
+				e.live = false
+				w.probe("endpoint_change_clears_verified")
 			}
 		}
-		fail(clause, "%s", d)
 	}
-	for bi := range pre.b {
-		if len(pre.b[bi].entries) == tBucketSize {
-			w.probe("op_on_full_bucket")
+	// refresh may re-insert seed nodes from the node database: follow additions of known nodes
+	if op.K == "refresh" {
+		for _, h := range *hooks {
+			if i := idxOf(post.b[h.bucket].entries, h.id); i >= 0 && idxOf(m.b[h.bucket].entries, h.id) < 0 && len(m.b[h.bucket].entries) < tBucketSize {
+				m.b[h.bucket].entries = append(m.b[h.bucket].entries, post.b[h.bucket].entries[i])
+			}
 		}
+		*hooks = nil
 	}
 }
 
